@@ -42,10 +42,12 @@ struct ProcState {
   // slice accumulation
   std::string slice_op;  // json fields of the operation completed (or begun, for condvar waits) in this slice
   std::vector<std::string> obs;
+  std::string uar;         // owner of the dead stack memory the pending operation touches ("" = none)
   bool next_spur = false;  // the next operation is the load of a spuriously failing weak CAS
   bool op_spur = false;
   std::vector<std::string> fences;  // orders of the atomic_thread_fence calls of this slice, in program order
   std::uintptr_t stack_probe = 0;
+  std::uintptr_t dead_hi = 0;  // stack addresses in [stack_probe - kStackBytes, dead_hi) are dead (0 = none)
   int allocs = 0;
 };
 
@@ -95,6 +97,8 @@ struct Global {
   std::vector<std::string> lines;  // event lines of this execution
   std::vector<std::pair<std::string, std::string>> finals;
   bool time_choice = false;
+  bool time_announced = false;
+  std::uint64_t last_time = 0;
   int time_budget = 1;
   int weak_budget = 0;
   int preemptions = 0;
@@ -414,6 +418,30 @@ int Choose(int n, const std::vector<std::string>& names, const char* tag) {
 
 const void* g_last_obj = nullptr;
 
+// the operation `op` of process st is about to execute: does it touch a dead part of somebody's stack?
+void CheckDeadStack(ProcState* st, const Op& op) {
+  if (op.obj == nullptr) {
+    return;
+  }
+  auto a = reinterpret_cast<std::uintptr_t>(op.obj);
+  auto inside = [](const ProcState& q, std::uintptr_t x) {
+    return x < q.dead_hi && x + kStackBytes > q.stack_probe;
+  };
+  for (auto& q : G().procs) {
+    if (q->dead_hi == 0 || q->stack_probe == 0) {
+      continue;
+    }
+    if (q.get() == st) {
+      // the owner builds something new there: it operates on it, or publishes a pointer to it
+      if (inside(*q, a) || (op.peek != nullptr && op.size >= 8 && inside(*q, static_cast<std::uintptr_t>(op.arg)))) {
+        q->dead_hi = 0;
+      }
+    } else if (inside(*q, a)) {
+      st->uar = q->name;
+    }
+  }
+}
+
 void HookBeginOp(const Op& op) {
   g_last_obj = op.obj;
   auto* st = Cur();
@@ -450,6 +478,10 @@ bool HookInject() {
     // the slice that led here is over; the next decision is who performs its pending operation
     yaclib::fault::Scheduler::RescheduleCurrent();
     // resumed: nobody else runs until the operation has been performed
+    {
+      HookGuard hg;
+      CheckDeadStack(st, st->op);
+    }
     if (st->op.peek != nullptr) {
       st->before = st->op.peek(st->op.obj);
     }
@@ -467,6 +499,10 @@ bool HookInject() {
     FlushSlice(st);
   }
   st->slice_op = OpJson(st, st->op, false, after);
+  if (!st->uar.empty()) {
+    st->obs.insert(st->obs.begin(), "{\"k\":\"use_after_return\",\"v\":" + JsonStr(st->uar) + "}");
+    st->uar.clear();
+  }
   st->has_op = false;
   return true;
 }
@@ -580,12 +616,31 @@ bool HookAdvanceTime(int /*runnable*/, std::uint64_t /*now*/, std::uint64_t /*de
   }
   HookGuard hg;
   static const std::vector<std::string> kNames{"wait", "fire"};
+  FlushSlice(g.running);  // the slice that just ended (it put a fiber to sleep) comes first in the record
   if (Choose(2, kNames, "time") == 1) {
     --g.time_budget;
     EmitLine("{\"e\":\"time\"}");
+    g.time_announced = true;
     return true;
   }
   return false;
+}
+
+// the clock also jumps when nothing is runnable: report that as a "time" record, too
+void HookOnResume(std::uint64_t /*id*/, std::uint64_t time) {
+  auto& g = G();
+  if (!g.active) {
+    return;
+  }
+  if (time != g.last_time) {
+    g.last_time = time;
+    if (!g.time_announced) {
+      HookGuard hg;
+      FlushSlice(g.running);
+      EmitLine("{\"e\":\"time\"}");
+    }
+    g.time_announced = false;
+  }
 }
 
 int HookWeakFail() {
@@ -632,6 +687,7 @@ void InstallHooks() {
   h.pick_next = &HookPickNext;
   h.pick_waiter = &HookPickWaiter;
   h.advance_time = &HookAdvanceTime;
+  h.on_resume = &HookOnResume;
   h.weak_fail = &HookWeakFail;
   h.rand = &HookRand;
 }
@@ -681,6 +737,8 @@ ExecResult RunExecution(const Scenario& sc, const std::map<std::string, std::str
   g.lines.clear();
   g.finals.clear();
   g.time_choice = false;
+  g.time_announced = false;
+  g.last_time = 0;
   g.time_budget = 1;
   g.weak_budget = 0;
   g.preemptions = 0;
@@ -823,6 +881,12 @@ Ambient::Ambient() {
 Ambient::~Ambient() {
   if (auto* st = Cur()) {
     --st->ambient;
+  }
+}
+
+void MarkStackDead(const void* frame) {
+  if (auto* st = Cur()) {
+    st->dead_hi = reinterpret_cast<std::uintptr_t>(frame);
   }
 }
 
@@ -1145,7 +1209,9 @@ void* VrtAlloc(std::size_t size) {
     ++g.stats.news;
     if (g.active && g.alloc_naming) {
       vrt::HookGuard hg;
-      if (auto* st = vrt::Cur(); st != nullptr) {
+      // allocations made in the middle of a visible operation belong to the fault layer (e.g. the scheduler's
+      // sleep map node of a timed wait), not to the code under test: they do not take part in the naming
+      if (auto* st = vrt::Cur(); st != nullptr && !st->has_op) {
         auto lo = reinterpret_cast<std::uintptr_t>(p);
         std::string name = st->name + ".a" + std::to_string(st->allocs++);
         g.alloc_ranges[lo] = vrt::Range{lo, lo + size, std::move(name)};
@@ -1164,7 +1230,14 @@ void VrtFree(void* p) noexcept {
     ++g.stats.deletes;
     if (g.active && !g.alloc_ranges.empty()) {
       vrt::HookGuard hg;
-      g.alloc_ranges.erase(reinterpret_cast<std::uintptr_t>(p));
+      auto lo = reinterpret_cast<std::uintptr_t>(p);
+      if (auto it = g.alloc_ranges.find(lo); it != g.alloc_ranges.end()) {
+        // names given to (parts of) this block die with it: the address may be reused at once
+        auto hi = it->second.hi;
+        g.fields.erase(g.fields.lower_bound(lo), g.fields.lower_bound(hi));
+        g.ranges.erase(g.ranges.lower_bound(lo), g.ranges.lower_bound(hi));
+        g.alloc_ranges.erase(it);
+      }
     }
   }
   std::free(p);
